@@ -114,6 +114,16 @@ def c19_run(rep, rng, tier):
         mseqs = {k: [(to_str(b), (chr(t[0]) if t else '')) for (b, t) in l] for (k, l) in a[1]}
         if munf != unf or mseqs != seqs:
             div.append({'case': payload, 'what': 'tokenizer', 'impl': [unf, seqs], 'model': [munf, mseqs]})
+    # every parse is the caller's own: editing what an earlier call returned (the public `sequences` dict, its lists, the sequence
+    # objects in them) does not reach a later parse of the same string with the same flags
+    own = [c for c in cases if '\x1b[' in c][:: max(1, len([c for c in cases if '\x1b[' in c]) // (250 if tier == 'quick' else 5000))]
+    for s in own:
+        for (ae, acc) in C19_FLAGS:
+            payload = {'input': s, 'allow_empty_terminator': ae, 'acceptable_terminators': acc, 'history': 'parse; edit the returned sequences; parse again'}
+            rep.count(payload, True)
+            m = c19_own(s, ae, acc)
+            if m:
+                viol.append({'oracle': 'C19.own', 'case': payload, 'msg': m})
     # a str SUBCLASS as input stands for its str value: an AnsiStr overrides len / indexing / == with text-level meanings,
     # the parser must read the raw string (as set_ansi_str does)
     from ansi_string import AnsiStr as _AnsiStr
@@ -169,6 +179,28 @@ def c19_run(rep, rng, tier):
     return viol, div
 
 
+def c19_own(s, ae, acc):
+    try:
+        p1 = ParsedAnsiControlSequenceString(s, ae, acc)
+        for k in list(p1.sequences):
+            for q in p1.sequences[k]:
+                q.sequence, q.terminator = 'edited', 'Z'
+            p1.sequences[k].append(p1.sequences[k][0])
+        for k in list(p1.sequences)[::2]:
+            del p1.sequences[k]
+        p1.sequences[99] = []
+        p2 = ParsedAnsiControlSequenceString(s, ae, acc)
+        eu, es = regex_tokenise(s, ae, acc)
+        seqs = {k: [(q.sequence, q.terminator) for q in v] for k, v in p2.sequences.items()}
+        if p2.unformatted_str != eu or seqs != es:
+            return 'after the result of an earlier parse was edited, parsing %r again gives %r %r, independent tokenisation %r %r' % (s, p2.unformatted_str, seqs, eu, es)
+        if p2.formatted_str != s:
+            return 'after the result of an earlier parse was edited, formatted_str of a new parse is %r' % p2.formatted_str
+    except Exception as e:  # noqa
+        return 'raised %r' % e
+    return None
+
+
 def c19_ansistr(a, raw, ae, acc):
     try:
         p, q = ParsedAnsiControlSequenceString(a, ae, acc), ParsedAnsiControlSequenceString(raw, ae, acc)
@@ -187,6 +219,9 @@ def c19_replay(case):
     class R:     # minimal report stub
         def count(self, *a, **k): pass
         def bump(self, *a, **k): pass
+    if 'history' in case:
+        m = c19_own(case['input'], case['allow_empty_terminator'], case['acceptable_terminators'])
+        return [m] if m else []
     if 'ansistr' in case:
         from ansi_string import AnsiStr as _AnsiStr
         a = _AnsiStr(case['ansistr'][0], *case['ansistr'][1])
